@@ -130,6 +130,7 @@ def r1_key_normalisation(run, w):
                 "probe values are converted with the column's own type; values and column ids "
                 "stay aligned", floor=9)
   # (a) do_lookup of both lookup columns: the raw key parameter is never handed on
+  N_FAST = H.aname(w, "lookup.LookupMapColumn._do_fast_lookup")
   for q in ("lookup.LookupMapColumn.do_lookup", "lookup.SortedLookupMapColumn.do_lookup",
             "lookup.LookupMapColumn._do_fast_lookup"):
     fn = w.fn(q)
@@ -172,7 +173,7 @@ def r1_key_normalisation(run, w):
       def good(r):
         if r.kind == "lit" and isinstance(r.node, ast.Tuple) and not r.node.elts and not r.path:
           return True             # the empty key of a lookup without key columns
-        if r.kind == "param" and fi.name == "_do_fast_lookup":
+        if r.kind == "param" and fi.name == N_FAST:
           return False
         if _normalised_comp(flow, r, lambda it: bool(it) and all(x.kind == "param" for x in it)):
           return True
@@ -191,7 +192,7 @@ def r1_key_normalisation(run, w):
         it cannot be followed."""
         if good(r):
           return True
-        if r.kind == "param" and cfn.fi.name == "_do_fast_lookup":
+        if r.kind == "param" and cfn.fi.name == N_FAST:
           return False            # the raw key of a lookup, by contract
         if r.kind == "param" and r.node not in ("self",) and depth < 2:
           sites2 = H._call_sites(w, cfn.fi)
@@ -220,7 +221,7 @@ def r1_key_normalisation(run, w):
           return True
         if r2.kind == "lit" and isinstance(r2.node, ast.Tuple) and not r2.node.elts:
           return True
-        if r2.kind == "param" and sfn.fi.name in ("do_lookup", "_do_fast_lookup"):
+        if r2.kind == "param" and sfn.fi.name in ("do_lookup", N_FAST):
           return False
         raise AnalysisError("%s: cannot follow where the key comes from (%r)"
                             % (sfn.qualname, r2))
